@@ -49,7 +49,7 @@ META = {
     'design_ref': 'DESIGN.md section 4 C36',
     'assumptions': ['GW-BASIC screen-editor semantics as encoded in vf/models/c36_rtxt.py'],
     'require_counters': {'any': ['model_steps', 'wraps_seen', 'scrolls_seen', 'scrolls_inside_view_window', 'rows_outside_window_checked',
-                                 'locate_ok', 'locate_error5', 'last_column_state_seen', 'boundary_invariant_checks', 'row25_followups_completed',
+                                 'locate_ok', 'locate_error5', 'last_column_state_seen', 'boundary_invariant_checks', 'row25_followups_completed', 'next_char_probes', 'repositions_from_last_column_state',
                                  'screen_fn_samples', 'wild_steps', 'graphics_mode_histories', 'width40_histories',
                                  'control_code_steps']},
     'timeout': {'quick': 900, 'thorough': 7200},
@@ -178,6 +178,39 @@ class Run(object):
         self.res.violation('report:differs-from-cursor', '%s: CSRLIN=%d POS(0)=%d but the cursor is kept at row %d col %d after %r' % (
             self.name, cs, ps, r, c, self.history[-1:]), self.case())
         self.bad += 1
+
+    def probe(self, after):
+        """
+        "CSRLIN and POS report it": the next character must land in the cell they report.  Reads (CSRLIN, POS),
+        prints one marker character with ';' and looks where it went.  Only inside the scroll area (output on
+        row 25 / outside an active window is not pinned).  Returns (row, col) reported, or None if not probed.
+        `after` names the class of the statement that positioned the cursor (mechanism for the key).
+        """
+        res = self.res
+        H, W = self.dims()
+        cs, ps = self.reports()
+        if cs is None or ps is None or not (1 <= cs <= H and 1 <= ps <= W):
+            return None
+        sa = self.box.impl.text_screen.scroll_area
+        if not (sa.top <= cs <= sa.bottom):
+            return None
+        before = self.box.s.get_chars()
+        old = before[cs - 1][ps - 1]
+        marker = b'#' if old != b'#' else b'@'
+        out = self.ex(b'PRINT "%s";' % marker)
+        if self.err(out):
+            return None
+        res.count('next_char_probes')
+        res.case((self.name, 'probe', after, self.digest))
+        now = self.box.s.get_chars()
+        if now[cs - 1][ps - 1] != marker:
+            landed = [(r + 1, c + 1) for r in range(H) for c in range(W) if now[r][c] == marker and before[r][c] != marker][:3]
+            res.violation('cursor:next-character-not-at-reported-position:after-%s' % after,
+                          '%s: CSRLIN=%d POS(0)=%d after %r, but the next character printed went to %r (cell %d,%d holds %r)' % (
+                              self.name, cs, ps, self.history[-2:-1], landed, cs, ps, now[cs - 1][ps - 1]), self.case())
+            self.bad += 1
+            return None
+        return cs, ps
 
     # -- running ---------------------------------------------------------------------------------------------
     def ex(self, cmd, keys=None, record=True):
@@ -399,7 +432,11 @@ class Run(object):
             self.model = None
             return
         self.check_reports()
-        # where VIEW PRINT leaves the cursor is not pinned: put it somewhere known inside the window
+        # where VIEW PRINT leaves the cursor is not pinned; what is pinned is that the reported position is where
+        # output continues. Either continue from the reported position (no LOCATE), or put the cursor somewhere known.
+        if self.rng.random() < 0.5:
+            self.adopt_by_probe('view-print')
+            return
         r, c = self.rng.randint(m.top, m.bottom), self.rng.randint(1, m.w)
         if self.err(self.ex(b'LOCATE %d,%d' % (r, c))):
             self.res.violation('locate:rejected-inside-window', '%s: LOCATE %d,%d raised an error right after VIEW PRINT %r TO %r' % (
@@ -408,6 +445,79 @@ class Run(object):
             return
         m.locate(r, c)
         self.compare('VIEW PRINT %r TO %r + LOCATE' % (a, b), True)
+
+    def adopt_by_probe(self, after):
+        """Continue the model from the position BASIC reports, verified by where the next character lands."""
+        m = self.model
+        pos = self.probe(after)
+        if pos is None:
+            self.model = None
+            return False
+        # the probe printed one marker at the reported cell: mirror it
+        if m.wrapped and pos == (m.csrlin(), m.pos()):
+            pass        # the model's own wrapped state already stands for that position
+        else:
+            m.locate(*pos)
+        before_scrolls = m.scrolls
+        m.print_(b'#' if self.box.s.get_chars()[pos[0] - 1][pos[1] - 1] == b'#' else b'@', False)
+        return self.compare('continuing at the reported position %d,%d after %s' % (pos[0], pos[1], after), True)
+
+    def step_reposition_from_wrap(self, kind=None):
+        """
+        Fill the row up to and including the last column with PRINT ...; (cursor left in the pending-wrap state),
+        execute a statement that repositions the cursor, then continue printing WITHOUT LOCATE: reported position
+        and the cell of the next character must agree, and the model continues from there.
+        """
+        m, rng = self.model, self.rng
+        W = m.w
+        if m.wrapped:
+            n = W
+        else:
+            n = W - m.col + 1
+        self.step_print(rstr(rng, n) if n <= 240 else rstr(rng, 240), False)
+        m = self.model
+        if m is None or not m.wrapped:
+            return
+        kind = kind or rng.choice(['view-print', 'view-print', 'view-print-off', 'cls', 'locate', 'key', 'width', 'screen'])
+        self.res.count('repositions_from_last_column_state')
+        if kind == 'view-print':
+            a = rng.randint(1, 24)
+            b = rng.randint(a, 24)
+            if self.err(self.ex(b'VIEW PRINT %d TO %d' % (a, b))):
+                self.model = None
+                return
+            m.view_print(a, b)
+            self.check_reports()
+            self.adopt_by_probe('view-print')
+        elif kind == 'view-print-off':
+            if self.err(self.ex(b'VIEW PRINT')):
+                self.model = None
+                return
+            wrapped, row, col = m.wrapped, m.row, m.col
+            m.view_print()
+            m.row, m.col, m.wrapped = row, col, wrapped
+            self.check_reports()
+            self.adopt_by_probe('view-print')
+        elif kind == 'cls':
+            if self.err(self.ex(b'CLS')):
+                self.model = None
+                return
+            m.cls()
+            if self.compare('CLS from the last-column state', True):
+                self.adopt_by_probe('cls')
+        elif kind == 'locate':
+            r, c = rng.randint(m.top, m.bottom), rng.choice([1, W, rng.randint(1, W)])
+            self.step_locate(r, c)
+            if self.model is not None:
+                self.adopt_by_probe('locate')
+        else:
+            cmd = {'key': rng.choice([b'KEY ON', b'KEY OFF']),
+                   'width': b'WIDTH %d' % (40 if W == 80 else 80),
+                   'screen': self.setup[0]}[kind]
+            self.ex(cmd)
+            self.model = None
+            self.check_reports()
+            self.probe(kind)
 
     def step_width(self):
         w = 40 if self.width == 80 else 80
@@ -536,6 +646,8 @@ class Run(object):
         self.res.count('wild_steps')
         self.res.case((self.name, 'wild', len(self.history), self.digest))
         self.check_reports()
+        if r.random() < 0.3:
+            self.probe('unmodelled-output')
 
     # -- a whole history -------------------------------------------------------------------------------------------------
     def run(self, nsteps, script=None):
@@ -619,6 +731,8 @@ class Run(object):
                     self.step_width()
                 elif k < 0.93 and not m.view:
                     self.step_row25(rng.random() < 0.5)
+                elif k < 0.97:
+                    self.step_reposition_from_wrap()
                 else:
                     # leave the modelled world for a few steps
                     self.model = None
@@ -656,6 +770,11 @@ def directed(harness, res):
             (MODES[5], [b'KEY ON', b'LOCATE 1,70', b'SCREEN 3', b'PRINT "x";', b'LOCATE 25,20', b'SCREEN 0', b'WIDTH 80']),
     ):
         Run(harness, res, rng, mode).run(0, [('wild_script', stmts)])
+    # every statement that repositions the cursor, executed from the last-column (pending wrap) state, then output
+    for mode in (MODES[0], MODES[1], MODES[7], MODES[10], MODES[5]):
+        for kind in ('view-print', 'view-print-off', 'cls', 'locate', 'key', 'width', 'screen'):
+            Run(harness, res, rng, mode).run(0, [('locate', 3, 5), ('reposition_from_wrap', kind), ('print', b'more', True),
+                                                 ('locate', 24, 1), ('reposition_from_wrap', kind), ('print', b'tail', True)])
     # output on row 25, then plain printing without another LOCATE (with newline / with ; + CLS)
     for mode in (MODES[0], MODES[1], MODES[5], MODES[8], MODES[10]):
         for nl in (True, False):
